@@ -506,19 +506,95 @@ func (f *FnEnc) globalLockCells(st *State) (cells []Addr, names []string) {
 // heap becomes arbitrary, except that the lock ghosts of global mutexes stay
 // as they were (a callee whose contract does not name held(mu) is
 // lock-balanced: checked for verified callees, assumed for trusted ones).
+// heldCellPred returns, as an SMT predicate over (r!q, s!q), the condition
+// "cell (r, *, s) is the lock ghost of a mutex": by allocation type and leaf
+// offset, for every struct (or array element) type of the repository that
+// contains a mutex.  "" if there is none.
+func (f *FnEnc) heldCellPred() string {
+	if f.objTypes == nil {
+		return ""
+	}
+	if f.heldPredDone {
+		return f.heldPred
+	}
+	f.heldPredDone = true
+	var alts []string
+	var walk func(t types.Type, base int, tag string, depth int)
+	walk = func(t types.Type, base int, tag string, depth int) {
+		if depth > 6 {
+			return
+		}
+		st, ok := t.Underlying().(*types.Struct)
+		if !ok {
+			return
+		}
+		_ = st
+		func() {
+			defer func() { recover() }()
+			for _, fi := range f.l.structFields(t) {
+				if fi.Ghost {
+					if fi.Name == "held" || fi.Name == "rheld" {
+						alts = append(alts, and(eq("(objtype r!q)", tag), eq("s!q", bv64(int64(base+fi.Off)))))
+					}
+					continue
+				}
+				if _, isStruct := fi.T.Underlying().(*types.Struct); isStruct {
+					walk(fi.T, base+fi.Off, tag, depth+1)
+				}
+			}
+		}()
+	}
+	for i, t := range f.objTypes.structs {
+		walk(t, 0, fmt.Sprint(100000+i), 0)
+	}
+	for i, t := range f.objTypes.elems {
+		if t != nil {
+			walk(t, 0, fmt.Sprint(1000+i), 0)
+		}
+	}
+	f.heldPred = or(alts...)
+	if f.heldPred == "false" {
+		f.heldPred = ""
+	}
+	return f.heldPred
+}
+
 func (f *FnEnc) havocCall(st *State, keepGhost bool) {
+	// a callee whose contract is `modifies *` (or that has no contract) is
+	// assumed lock-balanced: the lock ghost of EVERY mutex inside an object
+	// of a repository type is as before the call (an assumption for trusted
+	// and external callees, listed in the evidence; global mutexes are
+	// additionally checked for verified callees, see below)
+	oldBool := ""
+	if pred := f.heldCellPred(); pred != "" {
+		oldBool = f.heap(st, SBool)
+	}
 	cells, _ := f.globalLockCells(st)
 	olds := make([]string, len(cells))
 	for i, a := range cells {
 		olds[i] = f.c.define("heldpre", SBool, f.loadLeaf(st, SBool, a))
 	}
 	f.havocAllOpt(st, keepGhost)
+	if oldBool != "" {
+		// (stated on the new base heap, before anything is stored on top of it)
+		nb := st.heaps[SBool]
+		pred := f.heldCellPred()
+		f.c.assume(f.curGuardOrTrue(), "(forall ((r!q Int) (i!q (_ BitVec 64)) (s!q (_ BitVec 64))) (! (=> "+pred+" (= (select (select (select "+nb+" r!q) i!q) s!q) (select (select (select "+oldBool+" r!q) i!q) s!q))) :pattern ((select (select (select "+nb+" r!q) i!q) s!q))))")
+		f.c.trusted["callees with a `modifies *` contract or without contract leave every lock ghost as it was (lock-balanced): assumed"] = true
+	}
 	for i, a := range cells {
 		f.storeLeaf(st, SBool, a, olds[i])
 	}
 	if len(cells) > 0 {
 		f.c.trusted["callees whose contract does not name held(mu) leave the lock ghosts of global mutexes unchanged (proved for verified callees, assumed for trusted and external ones)"] = true
 	}
+}
+
+func (f *FnEnc) curGuardOrTrue() string {
+	if f.curGuard == "" {
+		return "true"
+	}
+	return f.curGuard
 }
 
 func (f *FnEnc) bumpAlloc(st *State, R string) {
